@@ -91,6 +91,11 @@ class LibMixin:
                 res.append(z3.BoolVal(kindmap.get(v.t.kind) == cn or (v.t.kind == 'bool' and cn == 'int')))
         yield st, Sc(z3.Or(*res) if len(res) > 1 else res[0], BOOL)
 
+    def bi_type(self, args, kw, st, frame, node):
+        if len(args) != 1:
+            raise VCError('type() with %d arguments' % len(args))
+        yield st, FuncV('typeof', recv=args[0])
+
     def bi_cast(self, args, kw, st, frame, node):
         c, v = args[0], args[1]
         if isinstance(c, ClassV) and isinstance(v, RefV) and c.name in self.ctx.shapes._ids \
@@ -440,6 +445,20 @@ class LibMixin:
         self.write_cont(c, st, t.mk(n + m, new), node)
         yield st, NoneV()
 
+    def cm_reverse(self, c, args, kw, st, frame, node):
+        """list.reverse() in place"""
+        if c.t.kind != 'list':
+            raise VCError('reverse on %r' % c.t)
+        t = c.t
+        cur = self.c_term(c, st)
+        n, a = t.acc('len')(cur), t.acc('arr')(cur)
+        new = fresh('rev', a.sort())
+        i = z3.Int('i!rv')
+        st.assume(z3.ForAll([i], z3.Select(new, i) == z3.Select(a, n - 1 - i), patterns=[z3.Select(new, i)]))
+        st.assume(z3.ForAll([i], z3.Select(a, i) == z3.Select(new, n - 1 - i), patterns=[z3.Select(a, i)]))
+        self.write_cont(c, st, t.mk(n, new), node)
+        yield st, NoneV()
+
     def cm_insert(self, c, args, kw, st, frame, node):
         idx, v = args
         if not (isinstance(idx, PyConst) and idx.v == 0):
@@ -452,6 +471,8 @@ class LibMixin:
         vt = self.term(v, st, t.args[0])
         st.assume(z3.ForAll([i], z3.Select(new, i) == z3.If(i == 0, vt, z3.Select(a, i - 1)),
                             patterns=[z3.Select(new, i)]))
+        # the same fact triggered from the old list (where did element i go): needed for "still contained" goals
+        st.assume(z3.ForAll([i], z3.Select(a, i) == z3.Select(new, i + 1), patterns=[z3.Select(a, i)]))
         if t.args[0].kind == 'bytes':
             from .execcont import bsum_fn
             k = z3.Int('k!bi')
@@ -593,6 +614,8 @@ class LibMixin:
             new = fresh('rmv', a.sort())
             st.assume(z3.ForAll([i], z3.Select(new, i) == z3.If(i < w, z3.Select(a, i), z3.Select(a, i + 1)),
                                 patterns=[z3.Select(new, i)]))
+            st.assume(z3.ForAll([i], z3.Implies(i != w, z3.Select(a, i) == z3.Select(new, z3.If(i < w, i, i - 1))),
+                                patterns=[z3.Select(a, i)]))
             self.write_cont(c, st, t.mk(n - 1, new), node)
             st.locals['__rm_index'] = Sc(w, INT)
             yield st, NoneV()
